@@ -2,7 +2,7 @@
    tied to both clients by harness/props/c08.py on every run. *)
 From Coq Require Import ZArith NArith List Bool.
 Import ListNotations.
-From EIO Require Import Client ClientProofs.
+From EIO Require Import Client ClientProofs ClientInv.
 Open Scope N_scope.
 
 (* send() on a client that is not connected is a no-op: nothing queued, nothing emitted, state untouched *)
@@ -25,6 +25,31 @@ Proof. exact disconnect_not_connected. Qed.
 Theorem c08_nothing_after_the_end : forall me l s, connected s = false -> receive_all me l s = (tt, s, []).
 Proof. exact receive_all_not_connected. Qed.
 
+(* For every configuration and every history of stimuli (application calls, server answers of every kind, socket events, clock
+   advances; every schedule the model's scheduler produces) in which the application does not start a connect() while another
+   one is still waiting for its handshake:  the connect / disconnect events alternate, beginning with a connect event - so every
+   established connection gets at most one disconnect event, none is reported for a connection that was not established, and
+   no connect event comes before the previous connection's disconnect event; the client reports 'connected' exactly when the
+   last of these events is a connect event (so a connection whose disconnect event has fired is never reported connected and
+   every connection that is no longer 'connected' has had its disconnect event); a client without session id is disconnected. *)
+Theorem c08_lifecycle_alternates : forall cfg ops, polite cfg ops init = true ->
+  let s := fst (run_ops cfg ops init) in let outs := concat (snd (run_ops cfg ops init)) in
+  alt false (lc outs) /\ ClientInv.connected s = last_or false (lc outs) /\ (sid_set s = false -> state s = Disconnected).
+Proof. exact lifecycle_alternates. Qed.
+
+(* the invariant behind it, for every reachable state: at most one connect() waits for its handshake and then the client is
+   disconnected; at most one disconnect() waits for the read loop and then the client is disconnecting *)
+Theorem c08_reachable_invariant : forall cfg ops s acc, Inv s acc -> polite cfg ops s = true ->
+  Inv (fst (run_ops cfg ops s)) (acc ++ concat (snd (run_ops cfg ops s))).
+Proof. exact reachable_inv. Qed.
+
+(* the hypothesis is satisfiable by a history with two connections, one ended by the server, one by the application *)
+Theorem c08_nonvacuous : polite ex_cfg ex_ops init = true /\ lc (concat (snd (run_ops ex_cfg ex_ops init))) = [true; false; true; false].
+Proof. exact polite_history. Qed.
+
 Print Assumptions c08_send_noop_when_not_connected.
 Print Assumptions c08_disconnect_noop_when_not_connected.
 Print Assumptions c08_nothing_after_the_end.
+Print Assumptions c08_lifecycle_alternates.
+Print Assumptions c08_reachable_invariant.
+Print Assumptions c08_nonvacuous.
